@@ -181,6 +181,14 @@ def run(ctx) -> None:
         c09.check_moma(ctx)
     except AnalysisError as exc:
         ctx.defer(str(exc))
+    # a gene deletion row is the model with the genes knocked out *through Gene.knock_out*: that it zeroes exactly the
+    # reactions whose rule became false - whatever the flags were before - is C07 (shared)
+    from . import c07
+
+    ctx.rule("C07.guard", "T5: Gene.knock_out zeroes a reaction iff reaction.functional is false, for every reaction of the gene (shared with C07)", floor=5)
+    ctx.rule("C07.eval", "truth-table evaluation of the rule evaluator (shared with C07)", floor=8)
+    c07.check_guard(ctx)
+    c07.check_eval(ctx)
     check_tasks(ctx)
     check_scope(ctx)
     check_status(ctx)
